@@ -267,8 +267,37 @@ def check_ctcancel(ctx, P):
             return e["k"] == "CallExpr" and (f.decl(e) or {}).get("n") == "maybe_cancel_propagated_canonical_type" and call_args(e) and \
                 any(y["k"] == "DeclRefExpr" and y.get("d") == r for y in walk(call_args(e)[0]))
         bad = [x for x in rets if not _on_all_paths_before(f, x, is_cancel)]
+        # nothing else is compared while the right operand may still carry the tentative canonical type: between the
+        # delegated comparison and the cancellation only bookkeeping calls may run (may-analysis of the state `between`)
+        ALLOWED = ("maybe_cancel_propagated_canonical_type", "mark_types_as_being_compared", "return_comparison_result",
+                   "unmark_types_as_being_compared")
+        did = {x["i"] for x in deleg}
+
+        def tr(st, e, blk):
+            if e["i"] in did:
+                return st | {"between"}
+            if is_cancel(e):
+                return st - {"between"}
+            return st
+        cfg = f.cfg()
+        ins, _ = forward(cfg, frozenset(), tr, join=lambda a, b: a | b)
+        early = []
+        for x in f.nodes():
+            if x["k"] in ("CallExpr", "CXXMemberCallExpr") and x["i"] not in did and (f.decl(x) or {}).get("n") not in ALLOWED and \
+                    not ((f.decl(x) or {}).get("n") or "").startswith("operator"):
+                st = state_before(cfg, ins, tr, x)
+                if st is not TOP and "between" in st:
+                    # part of the delegated call's own argument list (casts) does not count
+                    if any(any(y is x for y in walk(d)) for d in deleg):
+                        continue
+                    early.append(x)
         n += 1
         kind = f.sig[f.sig.index("(") + 1:].split(",")[0].replace("const ", "").replace("abigail::ir::", "").replace(" &", "")
+        ctx.ob("R-CTCANCEL", "equals(%s): nothing is compared between the delegated comparison and the cancellation" % kind,
+               not early, f.loc(early[0]) if early else f.loc(deleg[0]),
+               "only bookkeeping calls in between" if not early else
+               "`%s` runs while the right operand may still carry the tentatively propagated canonical type: sub-types that point "
+               "back to it compare canonically equal without being tracked" % expr_str(f, early[0])[:70])
         ctx.ob("R-CTCANCEL", "equals(%s): the propagation made by the delegated comparison is cancelled before every verdict" % kind,
                not bad, f.loc(bad[0]) if bad else f.loc(deleg[0]),
                "maybe_cancel_propagated_canonical_type(r) dominates the %d verdicts" % len(rets) if not bad else
